@@ -285,7 +285,8 @@ def main(argv=None):
             'source_tree_hash': key, 'expansion_cached': cached, 'expansion_s': round(exp_s, 2),
         },
         'assumptions': [
-            'rustc -Zunpretty=expanded prints the program it compiles; rewrite rules R1..R16 of DESIGN.md §3.3 preserve meaning',
+            'rustc -Zunpretty=expanded prints the program it compiles; the rewrite rules of DESIGN.md §3.3 and §13.2 (applications counted in coverage.rule_applications) preserve meaning, in particular the iterator rules R6/R26/R32/R33/R36/R37 read std adapters as in-order loops',
+            'machine integers are checked for overflow; machine floats are treated as total functions (L0) or as mathematical reals without rounding, overflow or NaN (L1)',
             'Verus + Z3 sound; vstd std specs',
             'float axioms of the level(s) used: ' + ', '.join(sorted({r.unit.level for r in results})) + ' (DESIGN.md §4)',
             'termination of loops without a decreases clause is not proved',
